@@ -13,10 +13,9 @@
    writing the state does not change the object), [saves_what_it_loaded]: writing the state right after
    loading it reproduces it. *)
 From Coq Require Import ZArith QArith List Bool Reals Lia Permutation.
-From CV Require Import Base.Num Base.RNum C03.ResumeModel C03.ResumeProofs C06.RestraintModel C03.ObjectsModel
+From CV Require Import Base.Num Base.RNum C03.ResumeModel C03.ResumeProofs C03.ObjectsModel C03.UsesC06
   C03.RestraintResume C03.RestraintMachine C03.ObjectsProofs C03.SystemProofs C03.Witness
-  C03.AbfObject C03.AbfResume C03.AbfSystem C03.MetaObject C03.MetaResume C03.FormatModel C03.FormatProofs C03.BlocksModel C03.BlocksProofs.
-From CV Require C05.MetaModel C04.ABFModel.
+  C03.UsesC04 C03.UsesC04Proofs C03.AbfSystem C03.UsesC05 C03.UsesC05Proofs C03.FormatModel C03.FormatProofs C03.BlocksModel C03.BlocksProofs.
 Import ListNotations.
 Local Open Scope Z_scope.
 
@@ -239,19 +238,17 @@ Print Assumptions C03_blockwise_loading.
 (* With same-step total forces the total force of the re-executed step is reported again by the resumed run
    (with lagged total forces a restarted engine does not have it: it is excluded from abf_out_eq0). *)
 Theorem C03_abf_total_force_at_restart_step :
-  forall (T : Type) (O : NumOps T) c s i, abf_ok c -> abf_inv O c s -> ABFModel.c_same_step c = true ->
-    let so := ABFModel.abf_step O c s (no_boundary i) in
-    let so' := ABFModel.abf_step O c (abf_load O c (ABFModel.s_cnt (fst so), ABFModel.s_sum (fst so))) (no_boundary i) in
-    ABFModel.o_tf (snd so) = ABFModel.o_tf (snd so').
+  forall (T : Type) (O : NumOps T) c s i, abf_ok c -> abf_inv O c s -> abf_same_step c = true ->
+    abf_reported_total_force O c s i =
+    abf_reported_total_force O c (abf_load O c (abf_saved_after_step O c s i)) i.
 Proof. intros T O c s i. exact (reexec_total_force_same_step O c s i). Qed.
 Print Assumptions C03_abf_total_force_at_restart_step.
 
 (* ---- non-vacuity ---- *)
 Example C03_ok_satisfiable :
-  exists c : @rcfg Q, r_ok c /\ c_chg_centers c = true /\ c_acc_work c = true.
+  exists c : r_cfg Q, r_ok c /\ r_flags c = (true, true).
 Proof.
-  exists (@mkCfg Q Harmonic [mkVar 1%Q false 1%Q 0%Q] [0%Q] true [2%Q] 1%Q false false 0%Q 0%Q 1%Q [] 4 0 0 true
-                 false false [] [] 1%Q 1%Q 0).
+  exists (r_example_cfg 0%Q 1%Q 1%Q 0%Q 2%Q true true 4).
   unfold r_ok. cbn. auto.
 Qed.
 
@@ -259,25 +256,23 @@ Example C03_sys_ok_satisfiable :
   exists c, sys_ok c /\ length (snd (fst c)) = 1%nat /\ length (fst (snd (snd c))) = 1%nat.
 Proof.
   exists ((mkXCfg 1%R 1%R 1%R false 1%R 0%R false 0%R false 0%R,
-           [@mkCfg R Harmonic [mkVar 1%R false 1%R 0%R] [0%R] false [0%R] 1%R false false 0%R 0%R 1%R [] 0 0 0 false
-                   false false [] [] 1%R 1%R 0]),
+           [r_example_cfg 0%R 1%R 1%R 0%R 0%R false false 0]),
           ([], ([mkHCfg [0%R] [1%R] [4] false], []))).
-  unfold sys_ok, r_ok, h_ok. cbn [fst snd length c_chg_centers c_acc_work c_nstages h_step_zero andb].
+  unfold sys_ok, r_ok, h_ok. cbn.
   repeat split; repeat constructor.
 Qed.
 
 (* a moving restraint with accumulated work, resumed after its third step: same final state as the run that
    went on (computed: the statement of C03_restraint_resumes on one concrete history) *)
 Example C03_meta_ok2_satisfiable :
-  exists c, meta_ok2 c /\ MetaModel.c_use_grids c = true /\ MetaModel.c_keep c = true /\ MetaModel.c_wt c = true.
+  exists c, meta_ok2 c /\ meta_flags c = (true, true, true).
 Proof.
-  exists (@MetaModel.mkCfg R [] [] 1%R 2%R 2 1 true true true 300%R 1%R false false 0 (fun _ => 0%R)).
+  exists (meta_example_cfg 1%R 2%R 300%R).
   unfold meta_ok2, meta_ok. cbn. repeat split; auto; try lia. exists 2. reflexivity.
 Qed.
 
 Example C03_restraint_example :
-  let c := @mkCfg Q Harmonic [mkVar 1%Q false 1%Q 0%Q] [0%Q] true [2%Q] 1%Q false false 0%Q 0%Q 1%Q [] 4 0 0 true
-                  false false [] [] 1%Q 1%Q 0 in
+  let c := r_example_cfg 0%Q 1%Q 1%Q 0%Q 2%Q true true 4 in
   let M := restraint_machine Qops in
   let h1 := [[1#2]; [1]]%Q in let i := [3#2]%Q in let h2 := [[2]; [5#2]; [2]]%Q in
   let P := ResumeModel.run M c 0 (h1 ++ [i]) in
